@@ -80,7 +80,7 @@ Lemma RA_step h e :
   RA h (final rstep r_init h) -> RA (h ++ [e]) (fst (rstep (final rstep r_init h) e)).
 Proof.
   set (s := final rstep r_init h). intro I. pose proof I as [F H P].
-  destruct e as [w a|r|w|w|w].
+  destruct e as [w a|r|w|w|w|w].
   - (* RReq *) simpl. split; simpl.
     + intros c o r G. apply (aget_aset_some _ nat_eqb_spec) in G as [[_ G]|[_ G]]; [discriminate|].
       destruct (F _ _ _ G). split; [assumption|apply in_or_app; now left].
@@ -165,6 +165,8 @@ Proof.
       simpl. apply (RA_weaken h s); simpl; auto.
       * intros c1 o1 r1 G. now apply (aget_adel_some _ nat_eqb_spec) in G.
       * intros w1 c1 [G|G]; auto. apply (aget_adel_some _ nat_eqb_spec) in G as [_ G]. auto.
+  - (* RReqFail *) simpl. apply (RA_weaken h s); simpl; auto.
+    intros c o r G. apply (aget_aset_some _ nat_eqb_spec) in G as [[_ G]|[_ G]]; [discriminate|assumption].
 Qed.
 
 Lemma RA_reach h : RA h (final rstep r_init h).
@@ -178,7 +180,7 @@ Lemma r_next_count h : r_next (final rstep r_init h) = length (r_reqs_of h).
 Proof.
   induction h as [|e h IH] using rev_ind; [reflexivity|].
   rewrite final_snoc, r_reqs_of_app, app_length. set (s := final rstep r_init h) in *.
-  destruct e as [w a|r|w|w|w]; simpl.
+  destruct e as [w a|r|w|w|w|w]; simpl.
   - lia.
   - lia.
   - destruct (wget w (r_ph1 s)).
@@ -192,6 +194,7 @@ Proof.
   - destruct (wget w (r_ph1 s)).
     + destruct (h_abort w (r_http s)); simpl; lia.
     + destruct (wget w (r_ph2 s)); simpl; lia.
+  - lia.
 Qed.
 
 Lemma rtsp_return_matches pre e w r :
@@ -200,7 +203,7 @@ Lemma rtsp_return_matches pre e w r :
   exists h1 a h2, pre = h1 ++ RReq w a :: h2 /\ h_cseq r = Some (length (r_reqs_of h1)) /\ In (RResp r) pre.
 Proof.
   pose proof (RA_reach pre) as [F H P]. set (s := final rstep r_init pre) in *.
-  destruct e as [w' a|r0|w'|w'|w'].
+  destruct e as [w' a|r0|w'|w'|w'|w'].
   - simpl. intros [].
   - simpl. intros [].
   - simpl. destruct (wget w' (r_ph1 s)) as [c|] eqn:E1.
@@ -224,4 +227,5 @@ Proof.
   - simpl. destruct (wget w' (r_ph1 s)).
     + destruct (h_abort w' (r_http s)); simpl; [intros [G|[]]; discriminate|intros []].
     + destruct (wget w' (r_ph2 s)); simpl; [intros [G|[]]; discriminate|intros []].
+  - simpl. intros [G|[]]; discriminate.
 Qed.
